@@ -5,13 +5,23 @@ From M Require StrTo.
 From M Require StrToBase.
 From M Require NearSpec.
 From M Require UnitTable.
+From M Require NumSyntax.
+From M Require ArrayRoundTrip.
+From M Require DecSpec.
 From M Require GFmt.
 From M Require GFmtSpec.
 From M Require Generated.
 From M Require ILog.
+From M Require LexBounds.
+From M Require LexModel.
+From M Require ListWs.
 From M Require MatchModel.
+From M Require MoreSpecs.
 From M Require NumDecode.
+From M Require NumList.
+From M Require ParamList.
 From M Require ParserModel.
+From M Require SimpleSpecs.
 From M Require StrTo.
 Import ListNotations.
 
@@ -127,4 +137,53 @@ Theorem C04_bool_names :
 Proof. exact (@UnitTable.bool_names). Qed.
 End T_bool_names.
 Definition C04_bool_names := @T_bool_names.C04_bool_names.
+
+Module T_strtod_exact_literal. Import NumSyntax. Local Open Scope bool_scope. Local Open Scope Z_scope.
+Import NumDecode. Local Open Scope Z_scope.
+Local Open Scope Z_scope.
+Theorem C04_strtod_exact_literal :
+  forall sg neg d1 d2 ex eneg rest,
+  sign_ok sg neg -> alld d1 -> alld (frac_digits d2) -> d1 ++ frac_digits d2 <> [] ->
+  match ex with Some (e, esg, ed) => ((e =? 101) || (e =? 69))%N = true /\ sign_ok esg eneg /\ alld ed /\ ed <> [] | None => True end ->
+  nodigit rest ->
+  (d2 = None -> (hd 0%N rest =? 46)%N = false) ->
+  (ex = None -> ((hd 0%N rest =? 101) || (hd 0%N rest =? 69))%N = false) ->
+  (d1 = [] -> d2 <> None) ->
+  let mant := dec (d1 ++ frac_digits d2) in
+  let e10 := (match ex with Some (_, _, ed) => if eneg then - dec ed else dec ed | None => 0 end) - frac_len d2 in
+  let e10' := Z.max (-400 - Z.of_nat (length (d1 ++ frac_digits d2))) (Z.min 400 e10) in
+  strtod_exact (literal sg d1 d2 ex ++ rest) =
+  Some (neg, if 0 <=? e10' then mant * 10 ^ e10' else mant, if 0 <=? e10' then 1 else 10 ^ (- e10')).
+Proof. exact (@NumSyntax.strtod_exact_literal). Qed.
+End T_strtod_exact_literal.
+Definition C04_strtod_exact_literal := @T_strtod_exact_literal.C04_strtod_exact_literal.
+
+Module T_strtod_bits_literal. Import NumSyntax. Local Open Scope bool_scope. Local Open Scope Z_scope.
+Import NumDecode. Local Open Scope Z_scope.
+Local Open Scope Z_scope.
+Theorem C04_strtod_bits_literal :
+  forall sg neg d1 d2 ex eneg rest,
+  sign_ok sg neg -> alld d1 -> alld (frac_digits d2) -> d1 ++ frac_digits d2 <> [] ->
+  match ex with Some (e, esg, ed) => ((e =? 101) || (e =? 69))%N = true /\ sign_ok esg eneg /\ alld ed /\ ed <> [] | None => True end ->
+  nodigit rest -> (d2 = None -> (hd 0%N rest =? 46)%N = false) ->
+  (ex = None -> ((hd 0%N rest =? 101) || (hd 0%N rest =? 69))%N = false) -> (d1 = [] -> d2 <> None) ->
+  let mant := dec (d1 ++ frac_digits d2) in
+  let e10 := (match ex with Some (_, _, ed) => if eneg then - dec ed else dec ed | None => 0 end) - frac_len d2 in
+  let e10' := Z.max (-400 - Z.of_nat (length (d1 ++ frac_digits d2))) (Z.min 400 e10) in
+  strtod_bits (literal sg d1 d2 ex ++ rest) = bits64 neg (nearest64 (if 0 <=? e10' then mant * 10 ^ e10' else mant) (if 0 <=? e10' then 1 else 10 ^ (- e10'))) /\
+  strtof_bits (literal sg d1 d2 ex ++ rest) = bits32 neg (nearest32 (if 0 <=? e10' then mant * 10 ^ e10' else mant) (if 0 <=? e10' then 1 else 10 ^ (- e10'))).
+Proof. exact (@NumSyntax.strtod_bits_literal). Qed.
+End T_strtod_bits_literal.
+Definition C04_strtod_bits_literal := @T_strtod_bits_literal.C04_strtod_bits_literal.
+
+Module T_read_uint_item. Import ArrayRoundTrip. Local Open Scope bool_scope. Local Open Scope Z_scope.
+Import LexModel LexBounds DecSpec MoreSpecs NumList SimpleSpecs ListWs ParserModel ParamList. Local Open Scope Z_scope.
+Local Open Scope Z_scope.
+Theorem C04_read_uint_item :
+  forall items k c m i,
+  Forall uint_item items -> nth_error items k = Some i -> at_item c items k -> tail_ok c ->
+  exists c', param_int c 32 false m = (c', true, value_of i) /\ at_item c' items (S k) /\ tail_ok c' /\ c' = upd_in c (Z.of_nat (S k)) (item_off items (S k) - 1).
+Proof. exact (@ArrayRoundTrip.read_uint_item). Qed.
+End T_read_uint_item.
+Definition C04_read_uint_item := @T_read_uint_item.C04_read_uint_item.
 
